@@ -1745,6 +1745,7 @@ int main(int argc, char** argv) {
       SH->done = 0;
       for (uint64_t j = i; j <= last; j++) { SH->cur = j; one_case(j); }
       SH->done = 1;
+      if (getenv("VERIF_C15_SELFLEAK")) { volatile char* lost = (char*)__real_malloc(123); lost[0] = 1; lost = nullptr; }   // monitor self-test
       exit(0);    // LeakSanitizer runs here for the worker
     }
     int status = 0;
